@@ -541,3 +541,42 @@ func assignFor(fam byte, kind int, n int) func(uint64) uint64 {
 	sort.Slice(all, func(i, j int) bool { return all[i] < all[j] })
 	return func(k uint64) uint64 { return all[k-1] }
 }
+
+// hierNonMonotone reports a hierarchical policy whose IDs do not increase with the level (some ID of a
+// lower level is not greater than every ID of the levels above): Tassa's condition fails and
+// hierarchical.CheckConstraints must refuse to induce an MSP (Birkhoff interpolation may be singular).
+func (p policy) hierNonMonotone() bool {
+	if p.fam != 'H' {
+		return false
+	}
+	var prevMax uint64
+	for _, l := range p.levels {
+		for _, x := range l.ids {
+			if x <= prevMax {
+				return true
+			}
+		}
+		for _, x := range l.ids {
+			if x > prevMax {
+				prevMax = x
+			}
+		}
+	}
+	return false
+}
+
+// nonMonotoneHier: interleaved hierarchical assignments, including the degenerate arithmetic-progression
+// patterns (a lower-level ID is the mean of two upper-level IDs; 2v = u) and variants >= 2^40.
+func nonMonotoneHier() []policy {
+	const b = uint64(1) << 40
+	h := func(ls ...level) policy { return policy{fam: 'H', levels: ls} }
+	return []policy{
+		h(level{1, []uint64{1, 5}}, level{3, []uint64{3, 4}}),                         // 3 = (1+5)/2: {1,3,5} singular
+		h(level{1, []uint64{2, 6}}, level{3, []uint64{4, 9}}),                         // 4 = (2+6)/2
+		h(level{1, []uint64{3, 11}}, level{3, []uint64{7, 20}}),                       // 7 = (3+11)/2
+		h(level{1, []uint64{4, 10}}, level{3, []uint64{2, 5}}),                        // 2v = u
+		h(level{2, []uint64{6, 2, 12}}, level{3, []uint64{3, 1}}),                     // below every upper ID
+		h(level{1, []uint64{b + 1, b + 9}}, level{3, []uint64{b + 5, b + 2}}),         // mean, >= 2^40
+		h(level{1, []uint64{b + 4, 1<<63 + 8}}, level{2, []uint64{b + 2, 1<<62 + 6}}), // 2v = u (mod 2^64), large
+	}
+}
